@@ -6,6 +6,6 @@ CONSTANTS
   Behaviours = {"ok", "5xx", "close", "never", "connfail"}
   Defects = {"SilentExitInUpFilter"}
 SPECIFICATION Spec
-INVARIANTS AtMostOneReply NoFallOut EndsProperly GaugeExact AttemptsBound
+INVARIANTS AtMostOneReply NoFallOut EndsProperly GaugeExact AttemptsBound RetriesReturned RetriesBounded
 PROPERTIES NoAttemptAfterReply
 CHECK_DEADLOCK TRUE
